@@ -154,6 +154,26 @@ func init() {
 	}
 }
 
+func init() {
+	// C04: the concluded-licence string of a CycloneDX component doubles with every licence entry
+	KnownPredicates["cdx_license_expression_blowup"] = func(c *Case) bool {
+		if c.Kind != "oracle" {
+			return false
+		}
+		seen := false
+		for _, m := range c.Messages {
+			if m == "(not minimised)" {
+				continue
+			}
+			if !strings.HasPrefix(m, "licence expression grows exponentially") {
+				return false
+			}
+			seen = true
+		}
+		return seen
+	}
+}
+
 // Covered returns the id of the first known finding whose predicate covers the case.
 func (kf *KnownFile) Covered(c *Case) string {
 	for _, k := range kf.Known {
